@@ -11,11 +11,21 @@
     (so an id is shared only by the declarators that were given the same name object);
   * `C03_default_access`: the model's initial access of a class block is the class-key
     default (table fact of the model's `parseClassDecl`).
-  Member kinds, special members and qualifiers: by the correspondence of the full parser
-  model and the member-grammar oracle (named in the evidence; not proof).
+  * `C03_method_qualifiers`, `C03_method_qualifiers_assign`, `C03_method_qualifiers_body`,
+    `C03_qualifier_flags` (`Theorems/MethodEnd.lean`): for EVERY sequence of the plain
+    qualifiers `const`, `volatile`, `override`, `final`, `&`, `&&` (any length, any order)
+    after a method's parameter list, followed by a token the routine does not handle, by
+    `= 0` / `= delete` / `= default`, or by a body with bracket-balanced content,
+    `_parse_method_end` sets exactly the flags that are written (a flag is on iff it was on
+    before or its keyword occurs), touches nothing else of the method, and leaves the stream
+    right after the declaration part it owns — for every stream state and parser state.
+  Member kinds, constructors / destructors, `noexcept` / `throw` / trailing return in the
+  qualifier sequence, base-class flags: by the correspondence of the full parser model and
+  the member-grammar oracle (named in the evidence; not proof).
 -/
 import CxxModel.Blocks
 import CxxModel.Theorems.Events
+import CxxModel.Theorems.MethodEnd
 import CxxModel.Parser.Decl
 namespace Cxx
 
@@ -44,5 +54,48 @@ theorem C03_anon_ids_increase (env : Env) {α : Type} (k : Nat → Prog α) (w :
     w.anon + 1 ≤ (interp env (.fresh k) w).1.anon := by
   simp only [interp]
   exact C03_anon_mono env (k (w.anon + 1)) { w with anon := w.anon + 1 }
+
+
+theorem C03_method_qualifiers (env : Env) (c : P.Core) (quals : List Tok) (m m' : Function) (F : Nat) (w : World)
+    (bmid b' : Buf) (term : Tok)
+    (hy : Yields env.cfg w.buf quals bmid) (ha : applyQuals m (quals.map (·.value)) = some m')
+    (htok : tokenEofOk env.cfg bmid = .ok (some term, b')) (hp : isPlainEnd term.value = true)
+    (hF : quals.length + 1 ≤ F) :
+    ∃ (w' : World) (t' : Tok), interp env (P.parseMethodEnd F c m) w = (w', .ok m') ∧
+      w'.buf = returnToken t' b' ∧ t'.tv = term.tv ∧ SameParse w w' :=
+  methodEnd_quals env c quals m m' F w bmid b' term hy ha htok hp hF
+
+theorem C03_method_qualifiers_assign (env : Env) (c : P.Core) (quals : List Tok) (m m1 : Function) (F : Nat) (w : World)
+    (bmid b1 b2 : Buf) (eq z : Tok) (res : Function)
+    (hy : Yields env.cfg w.buf quals bmid) (ha : applyQuals m (quals.map (·.value)) = some m1)
+    (h1 : tokenEofOk env.cfg bmid = .ok (some eq, b1)) (he : eq.value = "=")
+    (h2 : tokenEofOk env.cfg b1 = .ok (some z, b2))
+    (hz : (z.value = "0" ∧ res = { m1 with pureVirtual := true }) ∨
+          (z.value = "delete" ∧ res = { m1 with deleted := true }) ∨
+          (z.value = "default" ∧ res = { m1 with default := true }))
+    (hF : quals.length + 1 ≤ F) :
+    ∃ w', interp env (P.parseMethodEnd F c m) w = (w', .ok res) ∧ w'.buf = b2 ∧ SameParse w w' :=
+  methodEnd_quals_assign env c quals m m1 F w bmid b1 b2 eq z res hy ha h1 he h2 hz hF
+
+theorem C03_method_qualifiers_body (env : Env) (c : P.Core) (quals : List Tok) (m m1 : Function) (F : Nat) (w : World)
+    (bmid b1 b' : Buf) (ob : Tok) (content : List Tok) (closer : Tok)
+    (hy : Yields env.cfg w.buf quals bmid) (ha : applyQuals m (quals.map (·.value)) = some m1)
+    (h1 : tokenEofOk env.cfg bmid = .ok (some ob, b1)) (ho : ob.value = "{")
+    (hyb : Yields env.cfg b1 (content ++ [closer]) b') (hb : Balanced "{" "}" content) (hc : closer.type = "}")
+    (hF : quals.length + content.length + 2 ≤ F) :
+    ∃ w', interp env (P.parseMethodEnd (F + 1) c m) w = (w', .ok { m1 with hasBody := true }) ∧ w'.buf = b' ∧ SameParse w w' :=
+  methodEnd_quals_body env c quals m m1 F w bmid b1 b' ob content closer hy ha h1 ho hyb hb hc hF
+
+/-- the flags after any qualifier sequence: on iff on before or written; nothing else moves -/
+theorem C03_qualifier_flags (vs : List String) (m m' : Function) (h : applyQuals m vs = some m') :
+    m'.const = (m.const || vs.contains "const") ∧ m'.volatile = (m.volatile || vs.contains "volatile") ∧
+    m'.override = (m.override || vs.contains "override") ∧ m'.final = (m.final || vs.contains "final") ∧
+    m'.name = m.name ∧ m'.parameters = m.parameters ∧ m'.returnType = m.returnType ∧
+    m'.pureVirtual = m.pureVirtual ∧ m'.deleted = m.deleted ∧ m'.default = m.default ∧ m'.hasBody = m.hasBody :=
+  applyQuals_flags vs m m' h
+
+/-! non-vacuity: `const volatile && override final` is a qualifier sequence -/
+example (m : Function) : (applyQuals m ["const", "volatile", "&&", "override", "final"]).isSome = true := by
+  simp [applyQuals, qualStep]
 
 end Cxx
